@@ -27,6 +27,7 @@ use crate::codec::family::Family;
 use crate::common::NumStdDev;
 use crate::error::Error;
 use crate::hll::estimator::HipEstimator;
+use crate::hll::estimator::check_array_fields;
 use crate::hll::get_slot;
 use crate::hll::get_value;
 use crate::hll::serialization::CUR_MODE_HLL;
@@ -293,6 +294,8 @@ impl Array8 {
         cursor
             .read_exact(&mut data)
             .map_err(insufficient_data("data"))?;
+
+        check_array_fields(data.iter().copied(), 0, num_zeros, hip_accum, kxq0, kxq1)?;
 
         // Create estimator and restore state
         let mut estimator = HipEstimator::new(lg_config_k);
